@@ -595,3 +595,96 @@ func singleVariadicElem(v ssa.Value) ssa.Value {
 	}
 	return elem
 }
+
+func init() { register("C11.h", ruleC11h) }
+
+// storedFields lists the fields of the receiver (following one level of
+// nesting) that fn assigns.
+func storedReceiverFields(fn *ssa.Function) map[string]bool {
+	out := map[string]bool{}
+	for _, b := range fn.Blocks {
+		for _, ins := range b.Instrs {
+			st, ok := ins.(*ssa.Store)
+			if !ok {
+				continue
+			}
+			fa, ok := st.Addr.(*ssa.FieldAddr)
+			if !ok {
+				continue
+			}
+			if fa.X == ssa.Value(fn.Params[0]) {
+				out[fieldName(fa)] = true
+			}
+		}
+	}
+	return out
+}
+
+// ruleC11h: what the panic report clears for its own output it also puts
+// back. catchPanic saves formatting state, resets it through a helper,
+// prints the report and restores; every field the helper resets must be
+// among the fields restored from values read before the reset.
+func ruleC11h(c *Ctx) []*report.Result {
+	r := report.NewResult("C11.h", "in the function that reports a recovered panic, every field of the formatter that the reset helper (clearflags) assigns is restored, after the report, from a value loaded before the reset: the directive's flags, width and precision are intact for the text that follows the report", 2)
+	fn := c.P.Func("internal/rfmt", "(*pp).catchPanic")
+	if fn == nil {
+		r.Undecide("(*pp).catchPanic not found")
+		return []*report.Result{r}
+	}
+	pos := c.P.Pos(fn.Pos())
+	// the reset helper: a call on &p.fmt of a method that only stores fields
+	var reset *ssa.Call
+	for _, b := range fn.Blocks {
+		for _, ins := range b.Instrs {
+			call, ok := ins.(*ssa.Call)
+			if !ok {
+				continue
+			}
+			f := call.Common().StaticCallee()
+			if f == nil || recvNamed(f) != tFmt || len(f.Blocks) != 1 {
+				continue
+			}
+			if len(storedReceiverFields(f)) > 0 && len(c.staticCallees(f)) == 0 {
+				reset = call
+			}
+		}
+	}
+	if reset == nil {
+		r.Fail("(*internal/rfmt.pp).catchPanic / reset helper", pos, "no call of a formatter-reset helper found in the panic reporter", nil, "")
+		return []*report.Result{r}
+	}
+	cleared := storedReceiverFields(reset.Common().StaticCallee())
+	// loads of formatter fields before the reset, stores after it
+	saved := map[ssa.Value]string{}
+	restored := map[string]bool{}
+	seenReset := false
+	for _, b := range linearOrder(fn) {
+		for _, ins := range b.Instrs {
+			if ins == ssa.Instruction(reset) {
+				seenReset = true
+				continue
+			}
+			switch x := ins.(type) {
+			case *ssa.UnOp:
+				if fa, ok := x.X.(*ssa.FieldAddr); ok && !seenReset {
+					if inner, ok := fa.X.(*ssa.FieldAddr); ok && fieldName(inner) == "fmt" {
+						saved[x] = fieldName(fa)
+					}
+				}
+			case *ssa.Store:
+				if fa, ok := x.Addr.(*ssa.FieldAddr); ok && seenReset {
+					if inner, ok := fa.X.(*ssa.FieldAddr); ok && fieldName(inner) == "fmt" {
+						if name, ok := saved[x.Val]; ok && name == fieldName(fa) {
+							restored[name] = true
+						}
+					}
+				}
+			}
+		}
+	}
+	for f := range cleared {
+		r.Check(restored[f], "(*internal/rfmt.pp).catchPanic / restores fmt."+f, pos, "the reset helper "+reset.Common().StaticCallee().Name()+" assigns fmt."+f+" but the panic reporter does not restore it: after a contained panic the rest of the directive's operand is formatted without it")
+	}
+	r.Check(len(cleared) >= 1, "(*internal/rfmt.pp).catchPanic / reset assigns something", pos, "the reset helper assigns no field")
+	return []*report.Result{r}
+}
